@@ -1469,6 +1469,110 @@ T:
 `}}},
 	}
 	var out []c10Gen
+	// defined types that refer to themselves without a struct in between: anything that unwraps pointers / elements
+	// "until a named type is reached" meets the same named type again
+	progs = append(progs, c10P2Prog{"recursive-defined-types", []c10P2File{{"d", "d.go", `package d
+
+// Link is a pointer to itself.
+// @immutable
+// @constructor NewLink
+// @testonly
+// @packageonly x
+type Link *Link
+
+// A and B point at each other.
+// @testonly
+type A *B
+
+// @packageonly x
+type B *A
+
+// S, M, F, C, Arr are recursive through their element / result types.
+// @immutable
+// @testonly
+type S []S
+
+// @constructor NewM
+// @packageonly x
+type M map[string]M
+
+// @testonly
+type F func() F
+
+// @immutable
+type C chan C
+
+// Helper is restricted.
+// @testonly
+// @packageonly x
+func Helper() int { return 0 }
+
+func NewLink() Link { return nil }
+
+func NewM() M { return M{} }
+
+var head Link
+
+var ab A
+
+type holder struct {
+	L  Link
+	PL *Link
+	S  S
+	M  M
+	F  F
+	C  C
+	A  A
+	B  B
+}
+
+func useD(l Link, pl **Link, s S, m M, f F, c C) (Link, S) {
+	var z Link
+	var h holder
+	h.S = S{S{}, nil}
+	h.M = M{"k": M{}}
+	m["k"] = nil
+	s[0] = nil
+	h.F = f()
+	h.L = *l
+	*pl = &z
+	_ = new(Link)
+	_ = new(S)
+	_ = []Link{nil}
+	_ = Helper()
+	return head, h.S
+}
+
+var _ = useD
+`}, {"u", "u.go", `package u
+
+import "PREFIX/d"
+
+type wrap struct {
+	Link d.Link
+	S    d.S
+	d.M
+}
+
+func useU(l d.Link, s d.S, m d.M, f d.F, a d.A, b d.B) d.Link {
+	var z d.Link
+	var w wrap
+	w.S = d.S{nil}
+	w.Link = l
+	m["k"] = d.M{}
+	s[0] = d.S{}
+	_ = f()()
+	_ = *a
+	_ = **b
+	_ = new(d.Link)
+	_ = []d.S{{}}
+	_ = map[string]d.M{"k": {}}
+	_ = d.Helper()
+	return z
+}
+
+var _ = useU
+`}}})
 	// programs with exactly ONE annotation: every keyword on every kind of declaration it may stand on, alone in the
 	// module (whatever index or registry a checker builds starts empty and receives this one entry first)
 	for _, one := range []struct{ kw, line string }{
